@@ -25,6 +25,7 @@ from ..runner import (guard, timed_out, h, new_result, mkviolation,
 from . import c11
 
 PROPERTY = "C12"
+_VL = [1]       # validation level of the lines / Gfa under test
 T = "\t".join
 ORIENTS = [("+", "+"), ("+", "-"), ("-", "+"), ("-", "-")]
 SHAPES = [(f, fo, t, to) for f, t in (("A", "B"), ("A", "A"))
@@ -79,7 +80,7 @@ def judge_algebra(link, with_variants=True):
   txt = R.link_text(link)
   ctxt = R.link_text(R.link_complement(link))
   ov = link[4]
-  l = gfapy.Line(txt, version="gfa1")
+  l = gfapy.Line(txt, version="gfa1", vlevel=_VL[0])
   c = _try(lambda: l.complement())
   if isinstance(c, str):
     return [("complement-raises", "complement()", ctxt, c)], None
@@ -89,7 +90,7 @@ def judge_algebra(link, with_variants=True):
   chk("involution", "str(l.complement().complement())", txt,
       cc if isinstance(cc, str) else str(cc))
   chk("receiver-changed", "str(c) after c.complement()", ctxt, str(c))
-  l2 = gfapy.Line(txt, version="gfa1")
+  l2 = gfapy.Line(txt, version="gfa1", vlevel=_VL[0])
   chk("complement-text", "str(l.make_complement())", ctxt,
       _try(lambda: str(l2.make_complement())))
   chk("involution", "make_complement twice", txt,
@@ -120,8 +121,8 @@ def judge_algebra(link, with_variants=True):
     others += variants(link)
   for name, v in others:
     vt = R.link_text(v)
-    x = gfapy.Line(txt, version="gfa1")
-    y = gfapy.Line(vt, version="gfa1")
+    x = gfapy.Line(txt, version="gfa1", vlevel=_VL[0])
+    y = gfapy.Line(vt, version="gfa1", vlevel=_VL[0])
     exp = {"is_same": R.link_same(link, v),
            "is_complement": R.link_is_complement(link, v),
            "is_eql": R.link_same_edge(link, v)}
@@ -145,8 +146,8 @@ def judge_algebra(link, with_variants=True):
     for name, v in (("same ends, overlap *", star),
                     ("complement ends, overlap *", cstar)):
       vt = R.link_text(v)
-      x = gfapy.Line(txt, version="gfa1")
-      y = gfapy.Line(vt, version="gfa1")
+      x = gfapy.Line(txt, version="gfa1", vlevel=_VL[0])
+      y = gfapy.Line(vt, version="gfa1", vlevel=_VL[0])
       m = "is_eql"
       a1 = _try(lambda: bool(x.is_eql(y)))
       b1 = _try(lambda: bool(y.is_eql(x)))
@@ -160,7 +161,7 @@ def judge_algebra(link, with_variants=True):
     # the graph treats both forms of the `*` link alike
     res = []
     for v in (star, cstar):
-      g = gfapy.Gfa(version="gfa1")
+      g = gfapy.Gfa(version="gfa1", vlevel=_VL[0])
       for sl in seg_lines(link):
         g.add_line(sl)
       g.add_line(txt)
@@ -215,7 +216,7 @@ def judge_graph(link, both_orders=True, with_variants=True):
   if txt != ctxt:     # re-adding an EQUAL link is left open by the property
     for first, second, what in ((txt, ctxt, "l then complement"),
                                 (ctxt, txt, "complement then l")):
-      g = gfapy.Gfa(version="gfa1")
+      g = gfapy.Gfa(version="gfa1", vlevel=_VL[0])
       cur[0] = seg_lines(link) + [first, second]
       for s in seg_lines(link):
         g.add_line(s)
@@ -231,7 +232,7 @@ def judge_graph(link, both_orders=True, with_variants=True):
     vt = R.link_text(v)
     for first, second in (((txt, vt), (vt, txt)) if both_orders
                           else ((txt, vt),)):
-      g = gfapy.Gfa(version="gfa1")
+      g = gfapy.Gfa(version="gfa1", vlevel=_VL[0])
       cur[0] = seg_lines(link, v) + [first, second]
       for s in seg_lines(link, v):
         g.add_line(s)
@@ -366,7 +367,7 @@ def judge_order(link, form, perm):
     if exp != obs:
       out.append((clause, field, exp, obs))
   doc, steps, pov = order_docs(link, form)
-  g = gfapy.Gfa(version="gfa1")
+  g = gfapy.Gfa(version="gfa1", vlevel=_VL[0])
   for k in perm:
     r = _try(lambda: g.add_line(doc[k]))
     if isinstance(r, str):
@@ -419,7 +420,7 @@ def judge_two(case, perm):
     if exp != obs:
       out.append((clause, field, exp, obs))
   doc, stored, (psteps, pov), (qsteps, qov) = two_doc(case)
-  g = gfapy.Gfa(version="gfa1")
+  g = gfapy.Gfa(version="gfa1", vlevel=_VL[0])
   snaps = []
   for i, k in enumerate(perm):
     r = _try(lambda: g.add_line(doc[k]))
@@ -571,7 +572,7 @@ def judge_p3(case):
   lines, steps, stored_for_step, povs, segl, ll = p3_doc(case)
   if len(set(ll)) != len(ll):
     return out, None
-  g = gfapy.Gfa(version="gfa1")
+  g = gfapy.Gfa(version="gfa1", vlevel=_VL[0])
   for x in lines:
     r = _try(lambda: g.add_line(x))
     if isinstance(r, str):
@@ -603,18 +604,19 @@ def standalone(mode, link, extra=None):
   txt = R.link_text(link)
   s = ["import gfapy"]
   if mode == "algebra":
-    s += ["l = gfapy.Line({!r})".format(txt), "c = l.complement()",
+    s += ["l = gfapy.Line({!r}, vlevel={})".format(txt, _VL[0]),
+          "c = l.complement()",
           "print(l); print(c); print(c.complement())",
           "m = gfapy.Line({!r})".format(
               R.link_text(R.link_complement(link))),
           "print(l.is_complement(m), m.is_complement(l), l.is_eql(m), "
           "l.is_same(m))"]
   elif mode == "graph":
-    s += ["g = gfapy.Gfa(version='gfa1')"]
+    s += ["g = gfapy.Gfa(version='gfa1', vlevel={})".format(_VL[0])]
     s += ["g.add_line({!r})".format(x) for x in extra]
     s += ["print(g)"]
   else:
-    s += ["g = gfapy.Gfa(version='gfa1')"]
+    s += ["g = gfapy.Gfa(version='gfa1', vlevel={})".format(_VL[0])]
     s += ["g.add_line({!r})".format(x) for x in extra]
     s += ["print(g)", "p = g.line('p')",
           "print([(str(x.line), x.orient) for x in p.links])",
@@ -634,6 +636,9 @@ def mk(mode, link, probs, witness, extra=None, more=None):
       key["overlap"] = link[4]
     if more:
       key.update(more)
+    if _VL[0] != 1:
+      key["vlevel"] = str(_VL[0])
+      witness = dict(witness, vlevel=_VL[0])
     vs.append(mkviolation(clause, key, witness, exp, obs,
                           standalone(mode, link, extra) if link is not None
                           else "\n".join(["import gfapy",
@@ -653,6 +658,13 @@ def _guarded(fn, *a):
     if timed_out():
       return [("timeout", "case", "terminates", "time budget exceeded")], None
     return r
+  except Exception as e:
+    if timed_out():
+      return [("timeout", "case", "terminates", "time budget exceeded")], None
+    # a call outside the individually wrapped ones raised (e.g. writing a
+    # line whose lazily parsed overlap is refused only now): no answer
+    return [("raises", "case", "no exception", "{}: {}".format(
+        type(e).__name__, str(e).replace("\n", " / ")[:160]))], None
   except BaseException:
     if timed_out():
       return [("timeout", "case", "terminates", "time budget exceeded")], None
@@ -676,6 +688,26 @@ def work_algebra(chunk):
                                       else "distinct complement"))
     res["violations"].extend(mk("algebra", link, probs,
                                 {"mode": "algebra", "link": list(link)}))
+  return res
+
+
+def work_levels(item):
+  """algebra + graph + two-paths for a chunk of links at another validation
+  level (0: overlaps are parsed lazily; 3: every read is validated)."""
+  vl, links_, twos = item
+  _VL[0] = vl
+  try:
+    res = work_algebra(links_)
+    for other in (work_graph(links_), work_two(twos)):
+      for k in ("evaluations", "traces", "transitions"):
+        res[k] += other[k]
+      for k in ("states", "nontrivial", "outcomes"):
+        res[k] |= other[k]
+      res["violations"].extend(other["violations"])
+      res["samples"].extend(other["samples"])
+    res["outcomes"] = set("vlevel{}:{}".format(vl, o) for o in res["outcomes"])
+  finally:
+    _VL[0] = 1
   return res
 
 
@@ -897,6 +929,20 @@ def run(ctx):
   two = list(two_cases())
   merge_dedup(ctx, ctx.pmap(work_two, list(chunks(two, 2)), chunksize=1),
               seen, per_class, counter)
+  # the other validation levels: links with overlaps of <= 2 operations
+  lv_links = [l for l in links(short_cigs + ["*"])]
+  lv_items = []
+  for vl in (0, 3):
+    cl = list(chunks(lv_links, 60))
+    ct = list(chunks(two, max(1, len(two) // len(cl) + 1)))
+    for i, c in enumerate(cl):
+      lv_items.append((vl, c, ct[i] if i < len(ct) and ctx.tier != "quick"
+                       else (ct[i][:1] if i < len(ct) else [])))
+  merge_dedup(ctx, ctx.pmap(work_levels, lv_items, chunksize=1),
+              seen, per_class, counter)
+  ctx.alphabet["levels"] = ("algebra, graph (and twopaths: thorough all, "
+                            "quick a slice) again at vlevel 0 and 3 for "
+                            "overlaps of <= 2 operations")
   ctx.alphabet["twopaths"] = {
       "lines": ["S..", "L (direct or complement form)", "P p forwards",
                 "P q backwards"], "overlaps": list(TWO_CIGARS),
@@ -916,6 +962,7 @@ def run(ctx):
 
 
 def replay(w, ctx):
+  _VL[0] = w.get("vlevel", 1)
   mode = w["mode"]
   if mode == "algebra":
     link = tuple(w["link"])
